@@ -111,9 +111,12 @@ Section Oracle.
   Definition new_reader (maxh : N) (file : bytes) : res v2reader :=
     match read_header hdrdec maxh file with
     | Err e => Err e
-    | Ok (_, ver, _, _) =>
+    | Ok (_, ver, _, used) =>
       if ver =? 1 then Ok (mkrd 1 (mkv2 0 0 0 0 0) file)
       else if ver =? 2 then
+        (* repaired (notes/fixes/C13-newreader-pragma.patch, as in Inspect.new_reader): the CARv2 header is
+           read at the fixed offset 11, so a version-2 first header of any other length is refused *)
+        if negb (used =? pragma_size) then Err EOther else
         (* io.NewSectionReader(r, PragmaSize, HeaderSize) *)
         match read_v2hdr (take v2hdr_size (drop pragma_size file)) with
         | Err e => Err e
